@@ -304,6 +304,8 @@ var chainFiles = map[string]string{
 	"root/a/chain-map.lisp":  `(map 'list load-file '("b/f2.lisp" "f1.lisp"))`,
 	"root/a/chain-fold.lisp": `(foldl (lambda (acc l) (load-file l)) () '("b/f2.lisp" "f1.lisp" "../f0.lisp"))`,
 	"root/chain-app.lisp":    `(list (apply load-file '("a/f1.lisp")) (funcall load-file "f0.lisp"))`,
+	// a load-file call whose form is built at run time (no parser location)
+	"root/a/chain-eval.lisp": `(eval (list load-file "f1.lisp"))`,
 }
 
 type chainStep struct{ loc, from string }
@@ -320,6 +322,7 @@ var chainSteps = map[string][]chainStep{
 	"root/a/chain-map.lisp":  {{"b/f2.lisp", ""}, {"f1.lisp", ""}},
 	"root/a/chain-fold.lisp": {{"b/f2.lisp", ""}, {"f1.lisp", ""}, {"../f0.lisp", ""}},
 	"root/chain-app.lisp":    {{"a/f1.lisp", ""}, {"f0.lisp", ""}},
+	"root/a/chain-eval.lisp": {{"f1.lisp", ""}},
 }
 
 // chainSim lists the files evaluated when entry is loaded, given how a nested
@@ -509,6 +512,11 @@ func (c *FsCase) locations(d *fsDisk) []fsLoad {
 		}
 		l.via = "load-file"
 		out = append(out, l)
+	}
+	if len(c.Picks) > 0 && c.Picks[0]%6 == 0 && !c.CLI {
+		// last of all, so that nothing else of the case goes unchecked
+		// (known finding D13: the run-time-built call resolves against the working directory)
+		out = append(out, fsLoad{via: "load-file", loader: "root/f0.lisp", loc: "a/chain-eval.lisp"})
 	}
 	return out
 }
